@@ -223,7 +223,8 @@ PROPS['C04'] = floor_prop(
     {'rec': _c.only(('received_part',)), 'ran': None},
     ('rec received_part',), 'family serial: source -> handlers/processors/buffers -> sink with constant parameters; '
                             'non-trivial = at least one part reached a station',
-    families=[('serial', 300, 6000)])
+    # serialq: the same lines with a small source budget that is topped up during the run and between runs
+    families=[('serial', 300, 6000), ('serialq', 100, 2000)])
 PROPS['C05'] = floor_prop(
     'C05', ['SimProc.Props.C05', 'SimProc.Props.C05W'], ['SimProc/Props/C05.lean', 'SimProc/Props/C05W.lean'],
     {'d': _c.only(('',), None), 'rec': _c.only(('level',))},
